@@ -17,7 +17,8 @@
      "latch_after_success"   the terminal flag is set only if the emission succeeded ("retry on a transport error")
      "export_emits"          the bridge pushes a RUNNING heartbeat with every export / flush
      "tick_ignores_term"     the heartbeat loop does not look at the terminal flag
-     "start_keeps_term"      emit_start does not clear the terminal flag of the previous run *)
+     "start_keeps_term"      emit_start does not clear the terminal flag of the previous run
+     "terminal_without_start" a terminal call made before any START (Filter.run's finally after an exit() before init) emits *)
 EXTENDS Naturals, Sequences, FiniteSets, TLC
 
 CONSTANTS Defects, MaxCalls, MaxRuns
@@ -28,14 +29,15 @@ VARIABLES phase,     \* main thread: "idle" (no run) / "started" (emit_start don
           term,      \* _terminal_sent
           failNext,  \* the next client.emit() raises
           hist,      \* events handed to client.emit(): <<kind, ok>>
+          started,   \* _run_started: a START has been emitted on this emitter
           runs, n, lbl
-vars == <<phase, hb, stopFlag, term, failNext, hist, runs, n, lbl>>
+vars == <<phase, hb, stopFlag, term, failNext, hist, started, runs, n, lbl>>
 
 D(x) == x \in Defects
 Terminal == {"COMPLETE", "ABORT"}
 
 Init == /\ phase = "idle" /\ hb = "off" /\ stopFlag = FALSE /\ term = FALSE /\ failNext = FALSE
-        /\ hist = <<>> /\ runs = 0 /\ n = 0 /\ lbl = <<"init", "">>
+        /\ hist = <<>> /\ started = FALSE /\ runs = 0 /\ n = 0 /\ lbl = <<"init", "">>
 
 Attempt(kind) == /\ hist' = Append(hist, <<kind, ~failNext>>)
                  /\ failNext' = FALSE
@@ -47,7 +49,7 @@ EmitStart ==
   /\ phase = "idle" /\ runs < MaxRuns
   /\ Attempt("START")
   /\ term' = IF D("start_keeps_term") THEN term ELSE FALSE
-  /\ phase' = "started" /\ runs' = runs + 1
+  /\ phase' = "started" /\ runs' = runs + 1 /\ started' = TRUE
   /\ Count(<<"main", "emit_start">>)
   /\ UNCHANGED <<hb, stopFlag>>
 HbStart ==                       \* start_lineage_heart_beat: no-op while the thread is alive
@@ -55,12 +57,12 @@ HbStart ==                       \* start_lineage_heart_beat: no-op while the th
   /\ IF hb = "on" THEN UNCHANGED <<hb, stopFlag>> ELSE hb' = "on" /\ stopFlag' = FALSE
   /\ phase' = "running"
   /\ Quiet /\ Count(<<"main", "hb_start">>)
-  /\ UNCHANGED <<term, runs>>
+  /\ UNCHANGED <<term, runs, started>>
 StopHb ==
   /\ phase \in {"running", "ending"}
   /\ stopFlag' = TRUE /\ phase' = "ending"
   /\ Quiet /\ Count(<<"main", "hb_stop">>)
-  /\ UNCHANGED <<hb, term, runs>>
+  /\ UNCHANGED <<hb, term, runs, started>>
 EmitTerminal(kind) ==            \* emit_stop / emit_complete: _emit_terminal under the lock
   /\ phase \in {"running", "ending"}
   /\ IF term THEN Quiet /\ UNCHANGED term
@@ -68,12 +70,20 @@ EmitTerminal(kind) ==            \* emit_stop / emit_complete: _emit_terminal un
           /\ term' = IF D("latch_after_success") THEN ~failNext ELSE TRUE
   /\ phase' = "ending"
   /\ Count(<<"main", IF kind = "ABORT" THEN "emit_stop" ELSE "emit_complete">>)
-  /\ UNCHANGED <<hb, stopFlag, runs>>
+  /\ UNCHANGED <<hb, stopFlag, runs, started>>
 RunOver ==                       \* Filter.run has returned: its outer finally made the last (idempotent) emit_complete call
   /\ phase = "ending" /\ stopFlag /\ term
   /\ phase' = "idle"
   /\ Quiet /\ Count(<<"main", "run_over">>)
-  /\ UNCHANGED <<hb, stopFlag, term, runs>>
+  /\ UNCHANGED <<hb, stopFlag, term, runs, started>>
+
+\* Filter.run's finally blocks call emit_complete also when the run never got as far as its START (exit() before Filter.init())
+EarlyTerminal ==
+  /\ phase = "idle"
+  /\ IF (~started /\ ~D("terminal_without_start")) \/ term THEN Quiet /\ UNCHANGED term
+     ELSE Attempt("COMPLETE") /\ term' = TRUE
+  /\ Count(<<"main", "early_complete">>)
+  /\ UNCHANGED <<phase, hb, stopFlag, runs, started>>
 
 \* ---- heartbeat thread: one iteration of `while not stop: with lock: if terminal: break; emit RUNNING; wait` ------------
 Tick ==
@@ -82,29 +92,29 @@ Tick ==
      ELSE IF term /\ ~D("tick_ignores_term") THEN hb' = "off" /\ Quiet
      ELSE hb' = "on" /\ Attempt("RUNNING")
   /\ Count(<<"hb", "tick">>)
-  /\ UNCHANGED <<phase, stopFlag, term, runs>>
+  /\ UNCHANGED <<phase, stopFlag, term, runs, started>>
 
 \* ---- telemetry bridge (its own thread; runs while the process lives) ---------------------------------------------------
 Export ==
   /\ runs > 0
   /\ IF D("export_emits") THEN Attempt("RUNNING") ELSE Quiet
   /\ Count(<<"bridge", "export">>)
-  /\ UNCHANGED <<phase, hb, stopFlag, term, runs>>
+  /\ UNCHANGED <<phase, hb, stopFlag, term, runs, started>>
 Flush ==
   /\ runs > 0
   /\ IF D("export_emits") THEN Attempt("RUNNING") ELSE Quiet
   /\ Count(<<"bridge", "flush">>)
-  /\ UNCHANGED <<phase, hb, stopFlag, term, runs>>
+  /\ UNCHANGED <<phase, hb, stopFlag, term, runs, started>>
 
 \* ---- backend ------------------------------------------------------------------------------------------------------------
 BackendFail ==
   /\ ~failNext
   /\ failNext' = TRUE
   /\ Count(<<"backend", "fail_next">>)
-  /\ UNCHANGED <<phase, hb, stopFlag, term, hist, runs>>
+  /\ UNCHANGED <<phase, hb, stopFlag, term, hist, runs, started>>
 
 Next == /\ n < MaxCalls
-        /\ \/ EmitStart \/ HbStart \/ StopHb \/ EmitTerminal("ABORT") \/ EmitTerminal("COMPLETE") \/ RunOver
+        /\ \/ EmitStart \/ EarlyTerminal \/ HbStart \/ StopHb \/ EmitTerminal("ABORT") \/ EmitTerminal("COMPLETE") \/ RunOver
            \/ Tick \/ Export \/ Flush \/ BackendFail
 Spec == Init /\ [][Next]_vars
 
